@@ -528,6 +528,7 @@ int main(int argc, char **argv)
 			jval *sc = j_parse(line);
 			char *mbuf = NULL; size_t mlen = 0;
 			out = open_memstream(&mbuf, &mlen);
+			j_watchdog(30);
 			run_scenario(sc);
 			fclose(out);
 			fwrite(mbuf, 1, mlen, stdout);
